@@ -81,6 +81,17 @@ pub fn dim_size(dim: usize) -> usize {
     }
 }
 
+/// trace metadata by the initial-state selector: none (base), 9 bytes (more than one 7-byte chunk, not a
+/// multiple), 3 bytes, 17 bytes (more than one 15-byte chunk of the 128-bit field, not a multiple of 7 or 15)
+pub fn meta_for(init_sel: usize) -> Vec<u8> {
+    match init_sel {
+        1 => (0..9u8).map(|i| 0xA0 + i).collect(),
+        2 => vec![1, 2, 3],
+        3 => (0..17u8).map(|i| 0x51 + 3 * i).collect(),
+        _ => vec![],
+    }
+}
+
 pub fn base_point() -> Point {
     Point { d: [0; NDIMS] }
 }
@@ -179,7 +190,7 @@ pub fn statement(p: &Point, seed: u64) -> Option<Statement> {
         return None;
     }
     let opts = Opts { queries: QUERIES[p.d[8]], blowup: BLOWUPS[p.d[9]], grinding: GRINDS[p.d[10]], ext: EXTS[p.d[11]], folding: FOLDS[p.d[12]], rem_deg: REMS[p.d[13]] };
-    Some(Statement { spec: Arc::new(spec), opts, seed, meta: if p.d[7] == 2 { vec![1, 2, 3] } else { vec![] } })
+    Some(Statement { spec: Arc::new(spec), opts, seed, meta: meta_for(p.d[7]) })
 }
 
 /// all points within `d` deviations of the base point (each deviating dimension takes every other value)
